@@ -112,8 +112,39 @@ def run_seq(ops, impl='diskcache', via='Index', seed=0, tid=1):
             # an Index never loses items to eviction, whatever the size limit of its cache
             x.cache.reset('size_limit', 150 * 1024)
         ev = []
+        blocks = []
         for op in ops:
             name, a = op['op'], dict(op.get('a', {}))
+            if name in ('txbegin', 'txend', 'txraise'):
+                ret = R('none')
+                try:
+                    if name == 'txbegin':
+                        if impl == 'stdlib':
+                            blocks.append(collections.OrderedDict(x))
+                        else:
+                            cm = x.transact()
+                            cm.__enter__()
+                            blocks.append(cm)
+                    elif blocks and name == 'txend':
+                        b = blocks.pop()
+                        if impl != 'stdlib':
+                            b.__exit__(None, None, None)
+                    elif blocks:
+                        exc = RuntimeError('abort')     # passes through every enclosing block
+                        while blocks:
+                            b = blocks.pop()
+                            if impl == 'stdlib':
+                                x = b
+                            else:
+                                try:
+                                    if b.__exit__(RuntimeError, exc, None):
+                                        ret = R('swallowed')
+                                except RuntimeError:
+                                    pass
+                except Exception as exc:
+                    ret = R(type(exc).__name__)
+                ev.append({'op': name, 'a': a, 'ret': ret, 'pairs': pairs_of(x, vm)})
+                continue
             if name in ('reopen', 'pickle'):
                 if impl != 'stdlib':
                     if name == 'reopen':
@@ -161,12 +192,36 @@ def run_seq(ops, impl='diskcache', via='Index', seed=0, tid=1):
 VALS = [1, 2, 3, 100001, 101000, 102000, 102000, 200000 + 40 * 100 + 1, 200000 + 36 * 100 + 2, 300000 + 36 * 100 + 3]
 
 
-def random_ops(rng, n):
+def block_ops(rng, n):
+    """histories with transact() blocks (inline values only: file-backed values inside blocks meet the known finding F06)"""
+    ops, depth = [], 0
+    for o in random_ops(rng, n, vals=[1, 2, 3, 100001, 102000], lifecycle=False):
+        r = rng.random()
+        if depth == 0 and r < 0.25:
+            ops.append({'op': 'txbegin', 'a': {}})
+            depth = 1
+        elif depth == 1 and r < 0.1:
+            ops.append({'op': 'txbegin', 'a': {}})
+            depth = 2
+        elif depth > 0 and r < 0.4:
+            e = rng.choice(['txend', 'txraise'])
+            ops.append({'op': e, 'a': {}})
+            depth = depth - 1 if e == 'txend' else 0
+        ops.append(o)
+    while depth:
+        e = rng.choice(['txend', 'txraise'])
+        ops.append({'op': e, 'a': {}})
+        depth = depth - 1 if e == 'txend' else 0
+    return ops
+
+
+def random_ops(rng, n, vals=None, lifecycle=True):
     ops = []
     keys = list(PYKEYS)
+    VALS_ = vals or VALS
     for _ in range(n):
         r = rng.random()
-        k, v = rng.choice(keys), rng.choice(VALS)
+        k, v = rng.choice(keys), rng.choice(VALS_)
         if r < 0.22:
             o = {'op': 'setitem', 'a': {'k': k, 'v': v}}
         elif r < 0.36:
@@ -180,7 +235,7 @@ def random_ops(rng, n):
         elif r < 0.66:
             o = {'op': 'setdefault', 'a': {'k': k, 'v': v}}
         elif r < 0.70:
-            o = {'op': 'update', 'a': {'pairs': [[rng.choice(keys), rng.choice(VALS)] for _ in range(rng.randint(0, 3))]}}
+            o = {'op': 'update', 'a': {'pairs': [[rng.choice(keys), rng.choice(VALS_)] for _ in range(rng.randint(0, 3))]}}
         elif r < 0.76:
             o = {'op': rng.choice(['contains', 'len']), 'a': {'k': k}}
         elif r < 0.86:
@@ -189,7 +244,9 @@ def random_ops(rng, n):
             o = {'op': 'eq', 'a': {'other': 'CURRENT', 'ordered': rng.randrange(2), 'shuffle': rng.randrange(2), 'mutate': rng.random() < 0.3}}
         elif r < 0.95:
             o = {'op': 'clear', 'a': {}}
-        else:
+        elif lifecycle:
             o = {'op': rng.choice(['reopen', 'pickle']), 'a': {}}
+        else:
+            o = {'op': 'len', 'a': {'k': k}}
         ops.append(o)
     return ops
